@@ -1,3 +1,4 @@
+mod bdd;
 mod dft;
 mod hal;
 mod tmpbytes;
@@ -105,6 +106,35 @@ fn main() {
                 writeln!(f, "{}", serde_json::to_string(&ev).unwrap()).unwrap();
                 f.flush().unwrap();
             }
+        }
+        // bdd-tables <out.ndjson>
+        "bdd-tables" => {
+            let rows = bdd::dump_tables();
+            let mut out = BufWriter::new(std::fs::File::create(&args[2]).unwrap());
+            for r in rows.iter() {
+                writeln!(out, "{}", serde_json::to_string(r).unwrap()).unwrap();
+            }
+            out.flush().unwrap();
+            println!("bdd-tables: {} bit circuits", rows.len());
+        }
+        // bdd-words <pairs.ndjson> <out.ndjson>: plain Rust result of every word op on every pair [a,b]
+        "bdd-words" => {
+            let pairs = read_ndjson(&args[2]);
+            let mut out = BufWriter::new(std::fs::File::create(&args[3]).unwrap());
+            let ops = ["add", "sub", "sll", "srl", "sra", "slt", "sltu", "and", "or", "xor", "identity"];
+            let mut n = 0;
+            for p in pairs.iter() {
+                let a = p["a"].as_u64().unwrap() as u32;
+                let b = p["b"].as_u64().unwrap() as u32;
+                for op in ops {
+                    let r = bdd::word_op(op, a, b);
+                    // 16-bit halves keep every number inside TLC's native integers
+                    writeln!(out, "{}", serde_json::json!({"op": op, "a": [a & 0xffff, a >> 16], "b": [b & 0xffff, b >> 16], "r": [r & 0xffff, r >> 16]})).unwrap();
+                    n += 1;
+                }
+            }
+            out.flush().unwrap();
+            println!("bdd-words: {} rows", n);
         }
         // tmpbytes <n> <out.ndjson>
         "tmpbytes" => {
